@@ -737,9 +737,13 @@ func ruleR7_6(r *Run) {
 		for _, b := range nv.Blocks {
 			for _, in := range b.Instrs {
 				if mu, ok := in.(*ssa.MapUpdate); ok && isFieldLoad(mu.Map, "repoManager", "branchToUUID") {
-					if bo, ok := mu.Key.(*ssa.BinOp); ok && bo.Op == token.ADD {
-						if s, ok := constString(bo.Y); ok {
-							reserved = s
+					// the non-empty string constant that can end up as the key's suffix (directly, or through a
+					// local holding the head name)
+					for d := range dataDeps(mu.Key) {
+						if c, ok := d.(*ssa.Const); ok {
+							if s, ok := constString(c); ok && s != "" {
+								reserved = s
+							}
 						}
 					}
 				}
